@@ -238,6 +238,36 @@ def run(ctx):
                   and unparse(n.value) in (f"RE_CLORD_ROOT.match({cparam})", f"RE_CLORD_ROOT.fullmatch({cparam})")), None)
     rets = [unparse(r.value) for r in walk_no_nested(cr) if isinstance(r, ast.Return) and r.value is not None]
     ok = mname is not None and sorted(rets) == sorted([f"{mname}[1]", cparam]) or (mname is not None and sorted(rets) == sorted([f"{mname}.group(1)", cparam]))
+    if not ok and mname is not None:
+        # by value and by path: whatever local carries it, what is returned is group 1 where the match succeeded and the id itself where it did not
+        from sa.cfg import CFG as _CFG
+        from sa.guards import reaching_defs as _rdefs, facts as _facts
+        cg = _CFG(cr)
+        crd = _rdefs(cg, exc=False)
+
+        def leaves(e, at, depth=0):
+            if isinstance(e, ast.Name) and e.id != cparam and depth < 4:
+                out_ = []
+                for d in crd[at].get(e.id, set()):
+                    v_ = getattr(cg.nodes[d].ast, "value", None)
+                    out_ += leaves(v_, d, depth + 1) if isinstance(cg.nodes[d].ast, ast.Assign) and v_ is not None else [(e, at)]
+                return out_ or [(e, at)]
+            return [(e, at)]
+        ok = True
+        n_ret = 0
+        for r in cg.nodes:
+            if r.kind == "stmt" and isinstance(r.ast, ast.Return) and r.ast.value is not None:
+                for leaf, at in leaves(r.ast.value, r.id):
+                    n_ret += 1
+                    fs_ = set()
+                    for t_, lab_ in cg.guards(at, exc=False):
+                        fs_ |= _facts(t_, lab_ == "true")
+                    matched = (mname, True) in fs_ or (f"{mname} is not None", True) in fs_ or (f"{mname} is None", False) in fs_
+                    missed = (mname, False) in fs_ or (f"{mname} is None", True) in fs_ or (f"{mname} is not None", False) in fs_
+                    txt = unparse(leaf)
+                    if not ((matched and txt in (f"{mname}[1]", f"{mname}.group(1)")) or (missed and txt == cparam)):
+                        ok = False
+        ok = ok and n_ret >= 2
     ctx.instance(R4, "clord_root[group 1 of the root regex, else the id itself]", ok, "clord_root no longer returns group 1 of RE_CLORD_ROOT (or the id when it has no suffix)", loc(cr))
 
     # ------------------------------------------------------------------ rule 5
